@@ -662,24 +662,25 @@ Proof.
   destruct (a_children a); [|intros H; inversion H; subst; split; [exact HI|apply hor_of_regu; exact Hu]].
   destruct (a_st a) eqn:Est; try (intros H; inversion H; subst; split; [exact HI|apply hor_of_regu; exact Hu]).
   intros H. assert (G : Inv s' /\ regu u s'); [|destruct G; split; [assumption|apply hor_of_regu; assumption]].
-  revert H. destruct (handle roles s u TT 0%nat snd) as [[s1 o1] p1] eqn:E1.
-  destruct (A_handle _ _ _ _ _ _ _ _ HI Hu E1) as [I1 R1]. pose proof (keep_handle _ _ _ _ _ _ _ _ _ E1) as K1.
+  revert H. destruct (provide s (a_tok a)) as [s0 inst] eqn:Ep.
+  assert (Q0 : qk s s0) by (unfold provide in Ep; inversion Ep; subst; apply qk_same; reflexivity).
+  assert (G0 : get s0 u = Some a) by (unfold provide in Ep; inversion Ep; subst; exact Ea).
+  assert (I0 : Inv s0) by (eapply Inv_qk; eassumption).
+  assert (R0 : regu u s0) by (eapply regu_qk; eassumption).
+  destruct (handle roles s0 u TT 0%nat snd) as [[s1 o1] p1] eqn:E1.
+  destruct (A_handle _ _ _ _ _ _ _ _ I0 R0 E1) as [I1 R1]. pose proof (keep_handle _ _ _ _ _ _ _ _ _ E1) as K1.
   unfold bind at 1. destruct p1; [intros H; inversion H; subst; auto|].
   destruct (handle roles s1 u TTS 0%nat snd) as [[s2 o2] p2] eqn:E2.
   destruct (A_handle _ _ _ _ _ _ _ _ I1 R1 E2) as [I2 R2]. pose proof (keep_handle _ _ _ _ _ _ _ _ _ E2) as K2.
   unfold bind. destruct p2; [intros H; inversion H; subst; auto|].
-  destruct (provide s2 (a_tok a)) as [s3 inst] eqn:Ep.
   match goal with |- context [start_instance ?r ?x ?y ?z ?w0] => destruct (start_instance r x y z w0) as [[s9 o9] p9] eqn:E9 end.
   intros H; inversion H; subst.
-  assert (Q3 : qk s2 s3) by (unfold provide in Ep; inversion Ep; subst; apply qk_same; reflexivity).
-  destruct (K1 u a Ea) as (a1 & G1 & S1 & _). destruct (K2 u a1 G1) as (a2 & G2 & S2 & _).
-  assert (G3 : get s3 u = Some a2) by (unfold provide in Ep; inversion Ep; subst; exact G2).
-  assert (R3 : regu u s3) by (eapply regu_qk; eassumption).
-  assert (Q4 : qk s3 (upd_actor s3 u (fun b => w_st Alive (w_inst inst b)))).
-  { unfold upd_actor. rewrite G3. eapply qk_put; [exact G3|reflexivity|reflexivity|reflexivity| |eapply regu_or; eassumption].
+  destruct (K1 u a G0) as (a1 & G1 & S1 & _). destruct (K2 u a1 G1) as (a2 & G2 & S2 & _).
+  assert (Q4 : qk s2 (upd_actor s2 u (fun b => w_st Alive (w_inst inst b)))).
+  { unfold upd_actor. rewrite G2. eapply qk_put; [exact G2|reflexivity|reflexivity|reflexivity| |eapply regu_or; eassumption].
     intros Ht. rewrite S2, S1, Est in Ht. discriminate. }
-  set (s4 := upd_actor s3 u (fun b => w_st Alive (w_inst inst b))) in *.
-  assert (I4 : Inv s4) by (eapply Inv_qk; [eapply Inv_qk; [exact I2|exact Q3]|exact Q4]).
+  set (s4 := upd_actor s2 u (fun b => w_st Alive (w_inst inst b))) in *.
+  assert (I4 : Inv s4) by (eapply Inv_qk; [exact I2|exact Q4]).
   assert (R4 : regu u s4) by (eapply regu_qk; eassumption).
   assert (Q5 : qk s4 (deliver_sys s4 (a_tok a) (a_tok a) SResume)) by (apply qk_deliver_sys; apply I4).
   set (s5 := deliver_sys s4 (a_tok a) (a_tok a) SResume) in *.
